@@ -297,6 +297,45 @@ func c16Compare(want map[int]any) string {
 			return fmt.Sprintf("%s read back at start-up as %s, last published %s", tp.tag, g, ws)
 		}
 	}
+	// the restored trigger settings must also reach the channels they were saved for (PrepareRun's restore path)
+	for _, ti := range idx {
+		if c16Topics[ti].tag != "TRIGGER" {
+			continue
+		}
+		fts := want[ti].([]FullTriggerState)
+		nchan := 0
+		for _, f := range fts {
+			for _, ch := range f.ChannelIndices {
+				if ch+1 > nchan {
+					nchan = ch + 1
+				}
+			}
+		}
+		ds := &AnySource{nchan: nchan + 1, name: "verif"} // one more channel than was saved: it must get the defaults
+		ds.sampleRate, ds.samplePeriod = 1e5, 10*time.Microsecond
+		if err := ds.PrepareChannels(); err != nil {
+			return "PrepareChannels: " + err.Error()
+		}
+		if err := ds.PrepareRun(10, 20); err != nil {
+			return "PrepareRun with the restored configuration: " + err.Error()
+		}
+		ds.numberWrittenTicker.Stop()
+		ds.writingState.externalTriggerTicker.Stop()
+		ds.writingState.dataDropTicker.Stop()
+		for _, f := range fts {
+			w := f.TriggerState
+			w.EdgeMulti = false
+			for _, ch := range f.ChannelIndices {
+				g := ds.processors[ch].TriggerState
+				if gs, ws := c16Canon(g), c16Canon(w); gs != ws {
+					return fmt.Sprintf("channel %d starts the next run with trigger settings %s, the saved settings for it were %s", ch, gs, ws)
+				}
+			}
+		}
+		if g := ds.processors[nchan].TriggerState; g.AutoTrigger || g.EdgeTrigger || g.LevelTrigger || g.EdgeMulti {
+			return fmt.Sprintf("channel %d was not in the saved trigger settings but starts with triggers enabled: %s", nchan, c16Canon(g))
+		}
+	}
 	return ""
 }
 
